@@ -162,7 +162,19 @@ class Server(object):
         sock.setblocking(True)
         self.logger.info("accepted %s with fd %s", addrinfo, sock.fileno())
         self.clients.add(sock)
-        self._accept_method(sock)
+        try:
+            self._accept_method(sock)
+        except Exception:
+            # no thread / child process could be started for this client right now (spawn(): "can't start
+            # new thread", os.fork(): EAGAIN, ENOMEM), or whatever else went wrong while handing it over:
+            # that is no reason to take the whole server - and the clients it is serving - down.
+            # Turn this one client away, forget its socket, go on accepting
+            self.logger.exception("could not start serving %s; rejecting the connection", addrinfo)
+            self.clients.discard(sock)
+            try:
+                sock.close()
+            except Exception:
+                pass
 
     def _accept_method(self, sock):
         """this method should start a thread, fork a child process, or
